@@ -102,7 +102,8 @@ class SpecEval:
             return len(v)
         if fname == "old":
             return SpecEval(self.ex, self.extra["__old__"], self.extra).ev(n.args[0])
-        f = self.ev(n.func)
+        if isinstance(n.func, ast.Name) and n.func.id in self.ex.spec_functions: f = self.ex.spec_functions[n.func.id]
+        else: f = self.ev(n.func)
         args = [self.ev(a) for a in n.args]
         if callable(f): return f(self.ex, self.st, *args)
         raise NotImplementedError("spec call " + fname)
